@@ -178,6 +178,21 @@ bool monitor_calls(CaseCtx& c, const UpdateResult& u, unsigned flags, int max_tu
                 good_tuple = t;
                 break;
             }
+        // a third of the methods: the deprecated call_error hook is installed ONCE and stays for
+        // all the calls of the method (successive errors must all reach it)
+        HandlerMode mode = H_THROW;
+        if ((flags & MON_ERRORS) && caps.call_error && c.rng.chance(1, 3)) {
+            mode = H_CALL_ERROR;
+            c.w.set_handler(mode);
+        }
+        struct Restore {
+            IWorld& w;
+            HandlerMode& mode;
+            ~Restore() {
+                if (mode != H_THROW)
+                    w.set_handler(H_THROW);
+            }
+        } restore{c.w, mode};
         for (auto& t : tuples) {
             CallSpec cs{};
             for (size_t i = 0; i < t.size(); ++i) {
@@ -188,14 +203,7 @@ bool monitor_calls(CaseCtx& c, const UpdateResult& u, unsigned flags, int max_tu
             choose_routes(c.rng, c.r, me, cs, true);
             Sel exp = c.o.select(me, t);
             set_stage("call");
-            HandlerMode mode = H_THROW;
-            if ((flags & MON_ERRORS) && exp.kind != Sel::DEF && caps.call_error && c.rng.chance(1, 3)) {
-                mode = H_CALL_ERROR;
-                c.w.set_handler(mode);
-            }
             Outcome out = c.w.call(c.r, (int)m, cs);
-            if (mode != H_THROW)
-                c.w.set_handler(H_THROW);
             set_stage("monitor");
             c.run.evaluations++;
             c.run.events += (long)out.events.size();
